@@ -139,6 +139,12 @@ def histories(rng, n):
                                f"{ts(11, 23, 59, 59)} start 8\nbody g\n"}),
                   dict(run_of(rng, ['normal.log'], True),
                        append={'normal.log': f"{ts(11, 23, 59, 59)} end 8\n"})]),
+        ('two-constraint-objects-same-path',
+         lambda: [run_of(rng, ['normal.log'], True),
+                  dict(run_of(rng, ['normal.log'], True), **{'global': 1}),
+                  run_of(rng, ['normal.log'], True),
+                  dict(run_of(rng, ['recent.log', 'normal.log'], True),
+                       **{'global': 1})]),
         ('undated-cached',
          lambda: [run_of(rng, ['undated.log'], True),
                   run_of(rng, ['undated.log'], True, False)]),
@@ -184,7 +190,9 @@ def run(chk):
         "results or an exception and shares objects with an earlier run")
     n = 26 if chk.quick else 150
     base = tempfile.mkdtemp(prefix='c08_', dir=chk.work)
-    cons = [{'current': '2022-01-12 00:00:00', 'days': 0, 'hours': 24}]
+    cons = [{'current': '2022-01-12 00:00:00', 'days': 0, 'hours': 24},
+            # a second, DIFFERENT constraint object with an earlier boundary
+            {'current': '2022-01-12 00:00:00', 'days': 2, 'hours': 0}]
     since = G.since_secs(cons[0])
     defs = [SEQ_END, SEQ_NOEND, SIMPLE, SIMPLE2]
     jobs = []
@@ -273,13 +281,15 @@ def run(chk):
                             pass
                         if len(paths) != 1 or not pool[paths[0]]:
                             steps.append(f"Multi {'true' if r['global'] is not None else 'false'} "
-                                         f"{vlib.zl([ids[p] for p in paths])}")
+                                         f"{vlib.zl([ids[p] + len(ids) * (r['global'] or 0) for p in paths])}")
                             want.append(None)
                             continue
                     p = paths[0]
                     g = r['global'] is not None
+                    # the cache is per (constraint object, path)
+                    key = ids[p] + len(ids) * (r['global'] or 0)
                     steps.append(f"Single {'true' if g else 'false'} "
-                                 f"{ids[p]}")
+                                 f"{key}")
                     if h['exc']:
                         want.append(None)
                     else:
@@ -291,7 +301,9 @@ def run(chk):
                     # per file: computed position in LINES (None when the
                     # seek takes an exception path) and the fallback
                     comp = []
-                    for p in sorted(pool):
+                    for ci, p in [(ci, p) for ci in range(len(cons))
+                                  for p in sorted(pool)]:
+                        since = G.since_secs(cons[ci])
                         data = pool[p]
                         lines = G.split_lines(data)
                         dated = [G.line_ts(x[:64].decode(
